@@ -100,6 +100,12 @@ type TypeSpec struct {
 type DirSpec struct {
 	Name string    `json:"name"`
 	Args []ArgSpec `json:"args,omitempty"`
+	// Defaults names the arguments that have a default value (only honoured for scalar / enum typed,
+	// non-list arguments; the value is a function of the type).
+	Defaults []string `json:"defaults,omitempty"`
+	// Filter gives the directive a FieldCollectionFilter whose decision depends on the WHOLE argument
+	// map the executor hands it (and which logs that map).
+	Filter bool `json:"filter,omitempty"`
 }
 
 type Spec struct {
@@ -119,7 +125,7 @@ type Spec struct {
 func (s *Spec) clone() *Spec {
 	out := &Spec{Query: s.Query, Mutation: s.Mutation, Subscription: s.Subscription}
 	for _, d := range s.Directives {
-		out.Directives = append(out.Directives, DirSpec{Name: d.Name, Args: append([]ArgSpec(nil), d.Args...)})
+		out.Directives = append(out.Directives, DirSpec{Name: d.Name, Args: append([]ArgSpec(nil), d.Args...), Defaults: append([]string(nil), d.Defaults...), Filter: d.Filter})
 	}
 	for _, ci := range s.ConnIfaces {
 		ci.Req = append([]string(nil), ci.Req...)
@@ -311,10 +317,15 @@ func eraseSpec(s *Spec, F map[string]bool) *Spec {
 	// a directive argument whose type is deleted goes with it (there is no construction rule that
 	// would forbid such an argument: open findings F-10g / F-13g)
 	for _, d := range s.Directives {
-		nd := DirSpec{Name: d.Name}
+		nd := DirSpec{Name: d.Name, Filter: d.Filter}
 		for _, a := range d.Args {
 			if alive[baseName(a.Type)] {
 				nd.Args = append(nd.Args, a)
+				for _, dn := range d.Defaults {
+					if dn == a.Name {
+						nd.Defaults = append(nd.Defaults, dn)
+					}
+				}
 			}
 		}
 		out.Directives = append(out.Directives, nd)
